@@ -518,6 +518,7 @@ type pairH struct {
 	close  error
 	ckst   string
 	closed bool
+	ssts   map[string]string
 }
 
 func (s *pairH) Setup() {
@@ -539,6 +540,25 @@ func (s *pairH) Setup() {
 	must(d.Set([]byte("a"), []byte("init2"), pebble.NoSync))
 	must(d.Flush())
 	must(d.Set([]byte("c"), []byte("init"), pebble.NoSync))
+	// tables to ingest are built here, outside the explored threads: writing them is not part of
+	// what is being interleaved and would only multiply the scheduling points
+	s.ssts = map[string]string{}
+	for who := 0; who < 2; who++ {
+		for _, op := range strings.Split(s.ops[who], ">") {
+			var sub hx.Op
+			switch op {
+			case "ingest":
+				sub = hx.Op{K: "set", Key: "e", Val: fmt.Sprintf("ing%d", who)}
+			case "ingestexcise":
+				sub = hx.Op{K: "set", Key: "b", Val: fmt.Sprintf("ie%d", who)}
+			default:
+				continue
+			}
+			p, err := s.x.BuildSST(hx.Op{K: "ingest", Sub: []hx.Op{sub}}, fmt.Sprintf("t%d", who))
+			must(err)
+			s.ssts[fmt.Sprintf("%d/%s", who, op)] = p
+		}
+	}
 }
 
 func pairModel0() map[string]string {
@@ -647,21 +667,13 @@ func (s *pairH) runOp(who int, op string) error {
 	case "compact":
 		err = d.Compact(context.Background(), []byte("a"), []byte("z"), false)
 	case "ingest":
-		var p string
-		p, err = s.x.BuildSST(hx.Op{K: "ingest", Sub: []hx.Op{{K: "set", Key: "e", Val: fmt.Sprintf("ing%d", who)}}}, fmt.Sprintf("t%d", who))
-		if err == nil {
-			err = d.Ingest(context.Background(), []string{p})
-		}
+		err = d.Ingest(context.Background(), []string{s.ssts[fmt.Sprintf("%d/ingest", who)]})
 	case "excise":
 		err = d.Excise(context.Background(), pebble.KeyRange{Start: []byte("b"), End: []byte("c")})
 	case "checkpoint":
 		err = d.Checkpoint(fmt.Sprintf("ck%d", who), pebble.WithFlushedWAL())
 	case "ingestexcise":
-		var p string
-		p, err = s.x.BuildSST(hx.Op{K: "ingest", Sub: []hx.Op{{K: "set", Key: "b", Val: fmt.Sprintf("ie%d", who)}}}, fmt.Sprintf("t%d", who))
-		if err == nil {
-			_, err = d.IngestAndExcise(context.Background(), []string{p}, nil, nil, pebble.KeyRange{Start: []byte("b"), End: []byte("c")})
-		}
+		_, err = d.IngestAndExcise(context.Background(), []string{s.ssts[fmt.Sprintf("%d/ingestexcise", who)]}, nil, nil, pebble.KeyRange{Start: []byte("b"), End: []byte("c")})
 	case "efos":
 		// an eventually-file-only snapshot over the whole key space, read at once
 		e := d.NewEventuallyFileOnlySnapshot([]pebble.KeyRange{{Start: []byte("a"), End: []byte("z")}})
@@ -813,7 +825,7 @@ func scenarios1(prop string) []d1x.Scenario {
 		}
 		if prop == "C38" {
 			return []d1x.Scenario{
-				mkp("checkpoint", "ingest>setsync", 1, 2, 4),
+				mkp("checkpoint", "ingest>setsync", 1, 2, 30),
 				mkp("checkpoint", "setsync>ingest", 0, 1, 1),
 				mkp("checkpoint", "excise>setsync", 0, 1, 1),
 				mkp("checkpoint", "ingestexcise", 0, 1, 1),
@@ -821,7 +833,7 @@ func scenarios1(prop string) []d1x.Scenario {
 			}
 		}
 		return []d1x.Scenario{
-			mkp("efos", "ingestexcise", 1, 2, 6),
+			mkp("efos", "ingestexcise", 1, 2, 40),
 			mkp("efos", "excise", 0, 1, 1),
 			mkp("efos", "ingest>setsync", 0, 1, 1),
 			mkp("efos", "flush", 0, 1, 1),
